@@ -115,6 +115,31 @@ def obs_stream(segs):
     return lit
 
 
+def obs_stream_early(segs, early):
+    """the first `early` segments arrive before the protocol is told that the connection is up (the TCP classes start reading from
+    the socket before they fire 'connected'): nothing of them may be lost"""
+    r = protorig.HsmsRig(active=False, inert=True)
+    try:
+        r.conn._connected = True
+        for seg in segs[:early]:
+            r.conn.feed(seg)
+        try:
+            r.conn.on_connected({"source": r.conn})
+        except Exception:  # noqa: BLE001
+            pass
+        if not r.settle():
+            raise RuntimeError("rig did not settle after connect")
+        for seg in segs[early:]:
+            if not r.feed(seg):
+                raise RuntimeError("rig did not settle")
+        delivered = [(hdr_of(m.header), bytes(m.data)) for m in r.delivered]
+        lit = ("(HStream [" + ";".join(L.nlist(s) for s in segs) + "] ["
+               + ";".join(f"({hdr_lit(h)}, {L.nlist(d)})" for h, d in delivered) + f"] {len(r.buffer)} {L.bool_(incomplete(r.buffer))})")
+    finally:
+        r.stop()
+    return lit
+
+
 def compositions(n, limit):
     """all ways to cut a stream of n bytes into consecutive segments (up to `limit` of them)"""
     out = []
@@ -179,6 +204,14 @@ def gen_cases(rnd, tier):
                 k = rnd.randint(2, 8)
                 cuts = sorted(set(rnd.randint(1, len(stream) - 1) for _ in range(k)))
                 lits.append(("stream", obs_stream(cut(stream, cuts))))
+    # segments that are already there when the protocol learns that the connection is up
+    for _ in range(12 if tier == "quick" else 120):
+        frames = [frame_bytes(rand_hdr(rnd), c16.body_of(rnd.choice([0, 3, 20]), rnd)) for _ in range(rnd.randint(1, 3))]
+        stream = b"".join(frames)
+        k = rnd.randint(1, 4)
+        cuts = sorted(set(rnd.randint(1, len(stream) - 1) for _ in range(k)))
+        segs = cut(stream, cuts)
+        lits.append(("stream", obs_stream_early(segs, rnd.randint(1, len(segs)))))
     # longer bodies, random segmentation, incomplete tails
     for _ in range(60 if tier == "quick" else 600):
         frames = [frame_bytes(rand_hdr(rnd), c16.body_of(rnd.choice([0, 5, 300, 2000, 70000 if rnd.random() < 0.1 else 10]), rnd)) for _ in range(rnd.randint(1, 4))]
